@@ -1,14 +1,17 @@
 // Package c04: process exit hooks run exactly once; exit cascades to children; Join waits.
 //
 // (a) correspondence: the real process.Process driven through generated schedules of atomic
-//     steps, deterministically: every user hook is a harness ExitFunc that parks its goroutine
-//     on a channel before doing anything, so a goroutine inside Exit / AddExitHook / Fork can be
-//     held between the status flip and each later hook without touching the repository. One
-//     script line releases exactly one goroutine and waits until it parks again (hand-over by
-//     channels; "blocked in Join" is read off the goroutine's wait state, never from a sleep).
-//     The same lines are replayed on Uniflow.Process by the Lean driver `c04`.
+//
+//	steps, deterministically: every user hook is a harness ExitFunc that parks its goroutine
+//	on a channel before doing anything, so a goroutine inside Exit / AddExitHook / Fork can be
+//	held between the status flip and each later hook without touching the repository. One
+//	script line releases exactly one goroutine and waits until it parks again (hand-over by
+//	channels; "blocked in Join" is read off the goroutine's wait state, never from a sleep).
+//	The same lines are replayed on Uniflow.Process by the Lean driver `c04`.
+//
 // (b) property oracle: the statement checked directly (1) on the records of every
-//     deterministic case and (2) on free-running goroutines (no step control).
+//
+//	deterministic case and (2) on free-running goroutines (no step control).
 package c04
 
 import (
@@ -108,8 +111,8 @@ func blockedInWait(gid int64) bool {
 // ------------------------------------------------------------------ deterministic world
 
 type parkEv struct {
-	p, h int
-	rel  chan struct{}
+	h   int
+	rel chan struct{}
 }
 
 type worker struct {
@@ -120,43 +123,46 @@ type worker struct {
 
 type tstate struct {
 	kind int // 0 free, 1 parked at hook, 2 blocked in Join, 3 stuck
-	p, h int
+	p, h int // p: the process joined (kind 2); h: the hook parked in (kind 1)
 	rel  chan struct{}
 	join bool // the pending operation is a Join
 }
 
-// records for the statement-level audit
+// records for the statement-level audit. A registration is a (process, hook) pair; the hook
+// OBJECT is shared by every process it is registered on, so a run of the hook cannot be
+// attributed to a process by the harness: runs are kept per hook and matched to the
+// registrations as multisets of received errors.
 type regRec struct {
-	p, h     int
-	early    bool // AddExitHook returned true
-	seq      int
-	runs     int
-	runErr   []string
-	runOrder []int
+	p, h  int
+	early bool // made while p was running
+	seq   int
+}
+
+type runRec struct {
+	h   int
+	err string
+	seq int
 }
 
 type world struct {
 	procs   []*process.Process
 	parent  []int
-	hooks   map[[2]int]process.ExitHook
+	hooks   map[int]process.ExitHook // ONE ExitFunc object per hook id
 	workers [nWorkers]*worker
 	st      [nWorkers]tstate
 	parkCh  chan parkEv
 
 	mu      sync.Mutex
 	events  []string
-	regs     []*regRec          // every effective registration, in order
-	earlyRec map[[2]int]*regRec // (p,h) → the registration accepted while p was running
-	lateRec  [nWorkers]*regRec  // worker → the late registration its current AddExitHook makes
-	cur      int                // the worker being stepped
-	runSeq  int
-	firstE  map[int]string // p → error code of the first Exit line issued directly on it, if any
-	joinObs []string       // audit failures noticed at Join return
+	regs    []*regRec       // every effective registration, in order (harness bookkeeping, not return values)
+	open    map[[2]int]bool // (p,h) was registered while p was running
+	runs    []runRec
+	joinObs []string // audit failures noticed while the case runs
 	stuck   string
 }
 
 func newWorld() *world {
-	w := &world{hooks: map[[2]int]process.ExitHook{}, parkCh: make(chan parkEv), earlyRec: map[[2]int]*regRec{}, firstE: map[int]string{}}
+	w := &world{hooks: map[int]process.ExitHook{}, parkCh: make(chan parkEv), open: map[[2]int]bool{}}
 	for i := range w.workers {
 		wk := &worker{cmd: make(chan func() string), done: make(chan string, 1)}
 		gidc := make(chan int64)
@@ -185,33 +191,42 @@ func (w *world) close() {
 	}
 }
 
-func (w *world) hook(p, h int) process.ExitHook {
-	k := [2]int{p, h}
-	if hk, ok := w.hooks[k]; ok {
+// hook returns THE ExitFunc object of hook id h: the same object whatever process it is
+// registered on, so that registering one hook on several processes is real sharing.
+func (w *world) hook(h int) process.ExitHook {
+	if hk, ok := w.hooks[h]; ok {
 		return hk
 	}
 	hk := process.ExitFunc(func(err error) {
 		rel := make(chan struct{})
-		w.parkCh <- parkEv{p, h, rel}
+		w.parkCh <- parkEv{h, rel}
 		<-rel
 		w.mu.Lock()
-		w.events = append(w.events, fmt.Sprintf("h:%d.%d.%s", p, h, errCode(err)))
-		r := w.earlyRec[k]
-		if lr := w.lateRec[w.cur]; lr != nil && lr.p == p && lr.h == h {
-			r = lr
-		}
-		if r != nil {
-			r.runs++
-			r.runErr = append(r.runErr, errCode(err))
-			w.runSeq++
-			r.runOrder = append(r.runOrder, w.runSeq)
-		} else {
-			w.joinObs = append(w.joinObs, fmt.Sprintf("hook %d.%d ran without a registration", p, h))
-		}
+		w.events = append(w.events, fmt.Sprintf("h:%d.%s", h, errCode(err)))
+		w.runs = append(w.runs, runRec{h: h, err: errCode(err), seq: len(w.runs)})
 		w.mu.Unlock()
 	})
-	w.hooks[k] = hk
+	w.hooks[h] = hk
 	return hk
+}
+
+// runsOf / regsOf: harness records of one hook id.
+func (w *world) runsOf(h int) (out []runRec) {
+	for _, r := range w.runs {
+		if r.h == h {
+			out = append(out, r)
+		}
+	}
+	return
+}
+
+func (w *world) regsOf(h int) (out []*regRec) {
+	for _, r := range w.regs {
+		if r.h == h {
+			out = append(out, r)
+		}
+	}
+	return
 }
 
 const watchdog = 20 * time.Second
@@ -224,12 +239,11 @@ func (w *world) await(t int) {
 	for {
 		select {
 		case ev := <-w.parkCh:
-			w.st[t] = tstate{kind: 1, p: ev.p, h: ev.h, rel: ev.rel, join: false}
+			w.st[t] = tstate{kind: 1, h: ev.h, rel: ev.rel, join: false}
 			return
 		case ret := <-wk.done:
 			w.st[t] = tstate{}
 			w.mu.Lock()
-			w.lateRec[t] = nil
 			w.events = append(w.events, fmt.Sprintf("r:%d:%s", t, ret))
 			w.mu.Unlock()
 			return
@@ -277,9 +291,6 @@ func (w *world) joinsReturn(skip int) {
 }
 
 func (w *world) macro(t int, start func() string, isJoin bool) {
-	w.mu.Lock()
-	w.cur = t
-	w.mu.Unlock()
 	if start != nil {
 		w.st[t] = tstate{join: isJoin}
 		w.workers[t].cmd <- start
@@ -301,7 +312,7 @@ func (w *world) digest(res string) string {
 		case 0:
 			ts = append(ts, "i")
 		case 1:
-			ts = append(ts, fmt.Sprintf("h%d.%d", s.p, s.h))
+			ts = append(ts, fmt.Sprintf("h%d", s.h))
 		case 2:
 			ts = append(ts, fmt.Sprintf("j%d", s.p))
 		default:
@@ -426,30 +437,40 @@ func (w *world) exec(line string) (out string, ok bool) {
 			if x >= len(errs) {
 				return bad()
 			}
-			if _, seen := w.firstE[p]; !seen {
-				w.firstE[p] = strconv.Itoa(x)
-			}
 			w.macro(t, func() string { pr.Exit(errs[x]); return "-" }, false)
 		} else {
-			hk := w.hook(p, x)
+			hk := w.hook(x)
 			k := [2]int{p, x}
-			// A call on a terminated process is a (late) registration: its record is opened before
-			// the call because the hook runs inside it. A call on a running process is a
-			// registration iff it returns true (false = refused duplicate, nothing registered).
-			if pr.Status() == process.StatusTerminated {
-				w.mu.Lock()
-				rec := &regRec{p: p, h: x, seq: len(w.regs)}
-				w.regs = append(w.regs, rec)
-				w.lateRec[t] = rec
-				w.mu.Unlock()
+			// What the statement expects of this call, from the harness's own bookkeeping (the
+			// controller is the only running goroutine, so the status cannot change before the call):
+			// terminated p → late registration, the hook runs inside the call; running p and (p,x) not
+			// yet registered → registration, must return true; otherwise a duplicate, must return false.
+			running := pr.Status() == process.StatusRunning
+			expectTrue := false
+			w.mu.Lock()
+			if !running {
+				w.regs = append(w.regs, &regRec{p: p, h: x, seq: len(w.regs)})
+			} else if !w.open[k] {
+				w.open[k] = true
+				w.regs = append(w.regs, &regRec{p: p, h: x, early: true, seq: len(w.regs)})
+				expectTrue = true
 			}
+			w.mu.Unlock()
 			w.macro(t, func() string {
-				if pr.AddExitHook(hk) {
+				ret := pr.AddExitHook(hk)
+				if ret != expectTrue {
 					w.mu.Lock()
-					rec := &regRec{p: p, h: x, seq: len(w.regs), early: true}
-					w.regs = append(w.regs, rec)
-					w.earlyRec[k] = rec
+					switch {
+					case !running:
+						w.joinObs = append(w.joinObs, fmt.Sprintf("AddExitHook(p%d, hook %d) returned true on a terminated process", p, x))
+					case expectTrue:
+						w.joinObs = append(w.joinObs, fmt.Sprintf("registration refused: AddExitHook(p%d, hook %d) returned false although hook %d was not registered on the running p%d", p, x, x, p))
+					default:
+						w.joinObs = append(w.joinObs, fmt.Sprintf("duplicate accepted: AddExitHook(p%d, hook %d) returned true although hook %d is already registered on p%d", p, x, x, p))
+					}
 					w.mu.Unlock()
+				}
+				if ret {
 					return "t"
 				}
 				return "f"
@@ -480,11 +501,24 @@ func (w *world) auditJoin(p int, kids []int, kp []*process.Process) {
 		}
 		w.mu.Lock()
 		for _, r := range w.regs {
-			if r.p == c && r.early && r.runs == 0 {
+			// attributable only while the hook object is registered on this one process
+			if r.p == c && r.early && len(w.regsOf(r.h)) == 1 && len(w.runsOf(r.h)) == 0 {
 				w.joinObs = append(w.joinObs, fmt.Sprintf("Join(p%d) returned before hook %d of child p%d ran", p, r.h, c))
 			}
 		}
 		w.mu.Unlock()
+	}
+}
+
+// hookErrOf maps Err() of a terminated process to the error its hooks must have received.
+func hookErrOf(p *process.Process) string {
+	switch o := errObs(p.Err()); {
+	case o == "c":
+		return "0"
+	case strings.HasPrefix(o, "e"):
+		return o[1:]
+	default:
+		return "running"
 	}
 }
 
@@ -501,8 +535,6 @@ func (w *world) audit() []string {
 			fails = append(fails, fmt.Sprintf("worker %d not finished at the end of the case (state %d)", t, w.st[t].kind))
 		}
 	}
-	// exit error of every process: the first Exit issued on it or inherited from the cascade
-	exitErr := make([]string, len(w.procs))
 	for p := range w.procs {
 		if w.procs[p].Status() != process.StatusTerminated {
 			fails = append(fails, fmt.Sprintf("p%d still running after every root was exited", p))
@@ -512,42 +544,43 @@ func (w *world) audit() []string {
 		default:
 			fails = append(fails, fmt.Sprintf("p%d: Done not closed", p))
 		}
-		exitErr[p] = ""
 	}
+	// every registration (process, hook) ran exactly once with that process's exit error: per hook
+	// object, the multiset of received errors equals the multiset of its registrations' exit errors
+	var hs []int
+	for h := range w.hooks {
+		hs = append(hs, h)
+	}
+	sort.Ints(hs)
+	for _, h := range hs {
+		regs, runs := w.regsOf(h), w.runsOf(h)
+		var want, got, where []string
+		for _, r := range regs {
+			want = append(want, hookErrOf(w.procs[r.p]))
+			where = append(where, fmt.Sprintf("p%d", r.p))
+		}
+		for _, r := range runs {
+			got = append(got, r.err)
+		}
+		sort.Strings(want)
+		sort.Strings(got)
+		if len(got) != len(want) {
+			fails = append(fails, fmt.Sprintf("hook %d ran %d times for %d registrations (on %s)", h, len(got), len(want), strings.Join(where, ",")))
+		} else if strings.Join(got, ",") != strings.Join(want, ",") {
+			fails = append(fails, fmt.Sprintf("hook %d received errors [%s] but the exit errors of its processes (%s) are [%s]", h, strings.Join(got, ","), strings.Join(where, ","), strings.Join(want, ",")))
+		}
+	}
+	// reverse order, for hooks registered before termination whose object is registered on one
+	// process only (so that their single run is attributable)
 	byProc := map[int][]*regRec{}
 	for _, r := range w.regs {
-		byProc[r.p] = append(byProc[r.p], r)
-		if r.runs != 1 {
-			fails = append(fails, fmt.Sprintf("hook %d of p%d (registration #%d, early=%v) ran %d times", r.h, r.p, r.seq, r.early, r.runs))
-			continue
-		}
-		if exitErr[r.p] == "" {
-			exitErr[r.p] = r.runErr[0]
-		} else if exitErr[r.p] != r.runErr[0] {
-			fails = append(fails, fmt.Sprintf("hooks of p%d received different errors %s / %s", r.p, exitErr[r.p], r.runErr[0]))
+		if r.early && len(w.regsOf(r.h)) == 1 && len(w.runsOf(r.h)) == 1 {
+			byProc[r.p] = append(byProc[r.p], r)
 		}
 	}
-	for p := range w.procs {
-		if exitErr[p] == "" {
-			continue
-		}
-		want := "e" + exitErr[p]
-		if exitErr[p] == "0" {
-			want = "c"
-		}
-		if got := errObs(w.procs[p].Err()); got != want {
-			fails = append(fails, fmt.Sprintf("p%d: hooks received error %s but Err() = %s", p, exitErr[p], got))
-		}
-	}
-	for p, rs := range byProc {
-		var early []*regRec
-		for _, r := range rs {
-			if r.early && r.runs == 1 {
-				early = append(early, r)
-			}
-		}
+	for p, early := range byProc {
 		for i := 1; i < len(early); i++ {
-			if early[i-1].runOrder[0] < early[i].runOrder[0] {
+			if w.runsOf(early[i-1].h)[0].seq < w.runsOf(early[i].h)[0].seq {
 				fails = append(fails, fmt.Sprintf("p%d: hook %d registered before hook %d also ran before it", p, early[i-1].h, early[i].h))
 			}
 		}
@@ -562,8 +595,9 @@ type gen struct {
 	w *world
 	c *lib.Ctx
 	// flags for the non-triviality rule
-	exitWhileParked, addWhileExiting, doubleExit, forked, joined, lateAdd, dup bool
-	exiting                                                                    map[int]bool // Exit issued on p
+	exitWhileParked, addWhileExiting, doubleExit, forked, joined, lateAdd, dup, sharedReg bool
+	shared                                                                                bool         // this case draws hook ids from one pool for all processes
+	exiting                                                                               map[int]bool // Exit issued on p
 }
 
 func (g *gen) freeWorkers() []int {
@@ -610,11 +644,19 @@ func (g *gen) next(maxProcs int) string {
 			}
 		case 2:
 			if len(free) > 0 {
-				h := r.Intn(4)
+				h := 10*p + r.Intn(4) // the hook id names its process: never shared
+				if g.shared {
+					h = r.Intn(5)
+				}
 				if w.procs[p].Status() == process.StatusTerminated {
 					g.lateAdd = true
-				} else if _, ok := w.hooks[[2]int{p, h}]; ok {
+				} else if w.open[[2]int{p, h}] {
 					g.dup = true
+				}
+				for _, rg := range w.regs {
+					if rg.h == h && rg.p != p {
+						g.sharedReg = true
+					}
 				}
 				if g.exiting[p] && g.anyParked() {
 					g.addWhileExiting = true
@@ -688,7 +730,7 @@ func runCase(c *lib.Ctx, sc *lib.Script, lines []string, r *lib.RNG, steps, maxP
 		script = append(script, line+"\t=> "+out)
 		c.Hit("op-" + opName(line))
 	}
-	g := &gen{r: r, w: w, c: c, exiting: map[int]bool{}}
+	g := &gen{r: r, w: w, c: c, exiting: map[int]bool{}, shared: r.Chance(1, 2)}
 	if lines != nil {
 		for _, l := range lines {
 			if w.stuck != "" {
@@ -709,7 +751,7 @@ func runCase(c *lib.Ctx, sc *lib.Script, lines []string, r *lib.RNG, steps, maxP
 		on   bool
 		name string
 	}{{g.exitWhileParked, "concurrent-exit"}, {g.addWhileExiting, "add-racing-exit"}, {g.doubleExit, "double-exit"},
-		{g.forked, "fork"}, {g.joined, "join"}, {g.lateAdd, "late-add"}, {g.dup, "duplicate-add"}}
+		{g.forked, "fork"}, {g.joined, "join"}, {g.lateAdd, "late-add"}, {g.dup, "duplicate-add"}, {g.sharedReg, "hook-shared-across-processes"}}
 	n := 0
 	for _, f := range flags {
 		if f.on {
@@ -769,6 +811,10 @@ func classOf(what string) string {
 	switch {
 	case strings.Contains(what, "panic"):
 		return "panic"
+	case strings.Contains(what, "registration refused"):
+		return "registration-refused"
+	case strings.Contains(what, "duplicate accepted"), strings.Contains(what, "returned true on a terminated"):
+		return "duplicate-accepted"
 	case strings.Contains(what, "ran ") && strings.Contains(what, "times"):
 		return "hook-not-exactly-once"
 	case strings.Contains(what, "Join("):
@@ -785,16 +831,21 @@ func classOf(what string) string {
 
 // ------------------------------------------------------------------ free-running oracle
 
+// sHook is ONE ExitFunc object of a free-running round; it may be registered on several
+// processes (each (process, hook) pair at most once, except the deliberate duplicates of the
+// set-up phase), so its runs are matched to its registrations as multisets.
+type sReg struct {
+	p, owner, ord int // owner: registering goroutine (-1 = set-up phase); ord: order within (p, owner)
+	early         bool
+}
+
 type sHook struct {
-	p      int
-	id     int
-	owner  int // goroutine that registered it (-1 = set-up phase)
-	ord    int // registration order within (p, owner)
-	early  atomic.Bool
-	called atomic.Bool // AddExitHook was called
-	runs   atomic.Int32
-	err    atomic.Value // string
-	at     atomic.Int64
+	id   int
+	f    process.ExitHook
+	mu   sync.Mutex
+	regs []sReg
+	errs []string
+	at   []int64
 }
 
 func stress(c *lib.Ctx, r *lib.RNG) []lib.OracleFail {
@@ -808,6 +859,7 @@ func stress(c *lib.Ctx, r *lib.RNG) []lib.OracleFail {
 	for round := 0; round < rounds; round++ {
 		rr := r.Fork()
 		desc := fmt.Sprintf("free-running round %d of seed %d", round, c.Seed)
+		var trace []string // the deterministic part of the round, for the replay
 		// tree
 		np := rr.Range(1, 7)
 		procs := []*process.Process{process.New()}
@@ -816,32 +868,66 @@ func stress(c *lib.Ctx, r *lib.RNG) []lib.OracleFail {
 			p := rr.Intn(len(procs))
 			procs = append(procs, procs[p].Fork())
 			parent = append(parent, p)
+			trace = append(trace, fmt.Sprintf("p%d := p%d.Fork()", len(procs)-1, p))
 		}
 		var seq atomic.Int64
 		var hooks []*sHook
-		var hmu sync.Mutex
+		used := map[[2]int]bool{} // (p, hook id) pairs already planned
 		ordc := map[[2]int]int{}
-		mk := func(p, owner int) (*sHook, process.ExitHook) {
-			hmu.Lock()
-			h := &sHook{p: p, id: len(hooks), owner: owner, ord: ordc[[2]int{p, owner}]}
-			ordc[[2]int{p, owner}]++
-			hooks = append(hooks, h)
-			hmu.Unlock()
-			return h, process.ExitFunc(func(err error) {
-				h.runs.Add(1)
-				h.err.Store(errCode(err))
-				h.at.Store(seq.Add(1))
-				if rr2 := h.id % 7; rr2 == 0 {
+		mk := func() *sHook {
+			h := &sHook{id: len(hooks)}
+			h.f = process.ExitFunc(func(err error) {
+				n := seq.Add(1)
+				h.mu.Lock()
+				h.errs = append(h.errs, errCode(err))
+				h.at = append(h.at, n)
+				h.mu.Unlock()
+				if h.id%7 == 0 {
 					runtime.Gosched()
 				}
 			})
+			hooks = append(hooks, h)
+			return h
 		}
-		// set-up phase: hooks and private values, order known
+		// pick: a fresh hook object, or (1 in 3) an existing one not yet used with process p
+		pick := func(g *lib.RNG, p int) *sHook {
+			if len(hooks) > 0 && g.Chance(1, 3) {
+				h := hooks[g.Intn(len(hooks))]
+				if !used[[2]int{p, h.id}] {
+					used[[2]int{p, h.id}] = true
+					return h
+				}
+			}
+			h := mk()
+			used[[2]int{p, h.id}] = true
+			return h
+		}
+		var obsMu sync.Mutex
+		var obs []string
+		note := func(s string) { obsMu.Lock(); obs = append(obs, s); obsMu.Unlock() }
+		register := func(h *sHook, p, owner, ord int) {
+			ret := procs[p].AddExitHook(h.f)
+			h.mu.Lock()
+			h.regs = append(h.regs, sReg{p: p, owner: owner, ord: ord, early: ret})
+			h.mu.Unlock()
+		}
+		// set-up phase: hooks and private values, order known, every process running
 		for p := range procs {
 			for k := rr.Intn(4); k > 0; k-- {
-				h, f := mk(p, -1)
-				h.called.Store(true)
-				h.early.Store(procs[p].AddExitHook(f))
+				h := pick(rr, p)
+				ord := ordc[[2]int{p, -1}]
+				ordc[[2]int{p, -1}]++
+				trace = append(trace, fmt.Sprintf("p%d.AddExitHook(hook#%d)", p, h.id))
+				if !procs[p].AddExitHook(h.f) {
+					note(fmt.Sprintf("registration refused: AddExitHook(p%d, hook#%d) returned false although hook#%d was not registered on the running p%d", p, h.id, h.id, p))
+				}
+				h.regs = append(h.regs, sReg{p: p, owner: -1, ord: ord, early: true})
+				if rr.Chance(1, 4) {
+					trace = append(trace, fmt.Sprintf("p%d.AddExitHook(hook#%d) again", p, h.id))
+					if procs[p].AddExitHook(h.f) {
+						note(fmt.Sprintf("duplicate accepted: second AddExitHook(p%d, hook#%d) returned true", p, h.id))
+					}
+				}
 			}
 			procs[p].SetValue(100+p, p)
 		}
@@ -849,9 +935,6 @@ func stress(c *lib.Ctx, r *lib.RNG) []lib.OracleFail {
 		ng := rr.Range(2, 4)
 		var wg sync.WaitGroup
 		start := make(chan struct{})
-		var obsMu sync.Mutex
-		var obs []string
-		note := func(s string) { obsMu.Lock(); obs = append(obs, s); obsMu.Unlock() }
 		kidsOf := func(p int) []int {
 			var out []int
 			for c, q := range parent {
@@ -861,15 +944,41 @@ func stress(c *lib.Ctx, r *lib.RNG) []lib.OracleFail {
 			}
 			return out
 		}
+		// hooks of the set-up phase registered on child c only: attributable at Join time
+		setupOnly := func(c int) []*sHook {
+			var out []*sHook
+			for _, h := range hooks {
+				h.mu.Lock()
+				if len(h.regs) == 1 && h.regs[0].p == c && h.regs[0].owner == -1 {
+					out = append(out, h)
+				}
+				h.mu.Unlock()
+			}
+			return out
+		}
+		type op struct {
+			kind, p, e int
+			h          *sHook
+			ord        int
+		}
+		plans := make([][]op, ng)
 		for g := 0; g < ng; g++ {
-			g := g
 			gr := rr.Fork()
 			nops := gr.Range(2, 10)
-			type op struct{ kind, p, e int }
 			ops := make([]op, nops)
 			for i := range ops {
-				ops[i] = op{gr.Weighted([]int{5, 5, 2, 2, 1}), gr.Intn(np), gr.Intn(len(errs))}
+				ops[i] = op{kind: gr.Weighted([]int{5, 5, 2, 2, 1}), p: gr.Intn(np), e: gr.Intn(len(errs))}
+				if ops[i].kind == 1 {
+					ops[i].h = pick(gr, ops[i].p)
+					ops[i].ord = ordc[[2]int{ops[i].p, g}]
+					ordc[[2]int{ops[i].p, g}]++
+				}
 			}
+			plans[g] = ops
+		}
+		nHooks := len(hooks) // no hook object is created after this point
+		for g := 0; g < ng; g++ {
+			g, ops := g, plans[g]
 			wg.Add(1)
 			go func() {
 				defer wg.Done()
@@ -899,23 +1008,25 @@ func stress(c *lib.Ctx, r *lib.RNG) []lib.OracleFail {
 							note(fmt.Sprintf("p%d: own value survived Exit", o.p))
 						}
 					case 1:
-						h, f := mk(o.p, g)
-						h.called.Store(true)
-						h.early.Store(procs[o.p].AddExitHook(f))
+						register(o.h, o.p, g, o.ord)
 					case 2:
 						kids := kidsOf(o.p) // all forks were issued in the set-up phase
-						procs[o.p].Join()
+						var hs [][]*sHook
 						for _, c := range kids {
+							hs = append(hs, setupOnly(c))
+						}
+						procs[o.p].Join()
+						for i, c := range kids {
 							if procs[c].Status() != process.StatusTerminated {
 								note(fmt.Sprintf("Join(p%d) returned while child p%d is running", o.p, c))
 							}
-							hmu.Lock()
-							for _, h := range hooks {
-								if h.p == c && h.owner == -1 && h.early.Load() && h.runs.Load() == 0 {
-									note(fmt.Sprintf("Join(p%d) returned before set-up hook of child p%d ran", o.p, c))
+							for _, h := range hs[i] {
+								h.mu.Lock()
+								if len(h.errs) == 0 {
+									note(fmt.Sprintf("Join(p%d) returned before set-up hook#%d of child p%d ran", o.p, h.id, c))
 								}
+								h.mu.Unlock()
 							}
-							hmu.Unlock()
 						}
 					case 3:
 						procs[o.p].SetValue(o.e, g)
@@ -957,59 +1068,59 @@ func stress(c *lib.Ctx, r *lib.RNG) []lib.OracleFail {
 			wg.Wait()
 			close(fin)
 		}()
+		replay := desc + "\n" + strings.Join(trace, "\n") + fmt.Sprintf("\nthen %d goroutines run their planned Exit/AddExitHook/Join/value operations freely and p0 is exited", ng)
 		select {
 		case <-fin:
 		case <-time.After(watchdog):
-			add("stuck", desc+": goroutines did not finish (Join or Exit blocked)", desc)
+			add("stuck", desc+": goroutines did not finish (Join or Exit blocked)", replay)
 			continue
 		}
 		c.Count(fmt.Sprintf("s%d-%d", c.Seed, round))
 		// quiescent: audit
 		for _, o := range obs {
-			add(classOf(o), desc+": "+o, desc)
+			add(classOf(o), desc+": "+o, replay)
 		}
-		perr := make([]string, np)
 		for p := range procs {
 			if procs[p].Status() != process.StatusTerminated {
-				add("cascade-incomplete", fmt.Sprintf("%s: p%d still running after the root exited and every Exit returned", desc, p), desc)
+				add("cascade-incomplete", fmt.Sprintf("%s: p%d still running after the root exited and every Exit returned", desc, p), replay)
 			}
 		}
-		for _, h := range hooks {
-			if !h.called.Load() {
-				continue
+		sharedSeen := false
+		for _, h := range hooks[:nHooks] {
+			var want, where []string
+			for _, rg := range h.regs {
+				want = append(want, hookErrOf(procs[rg.p]))
+				where = append(where, fmt.Sprintf("p%d", rg.p))
 			}
-			if n := h.runs.Load(); n != 1 {
-				add("hook-not-exactly-once", fmt.Sprintf("%s: hook #%d of p%d (early=%v) ran %d times", desc, h.id, h.p, h.early.Load(), n), desc)
-				continue
+			if len(h.regs) > 1 {
+				sharedSeen = true
 			}
-			e := h.err.Load().(string)
-			if perr[h.p] == "" {
-				perr[h.p] = e
-			} else if perr[h.p] != e {
-				add("hook-error-mismatch", fmt.Sprintf("%s: hooks of p%d received different errors %s / %s", desc, h.p, perr[h.p], e), desc)
-			}
-		}
-		for p := range procs {
-			if perr[p] == "" {
-				continue
-			}
-			want := "e" + perr[p]
-			if perr[p] == "0" {
-				want = "c"
-			}
-			if got := errObs(procs[p].Err()); got != want {
-				add("hook-error-mismatch", fmt.Sprintf("%s: p%d hooks received %s but Err() = %s", desc, p, perr[p], got), desc)
+			got := append([]string{}, h.errs...)
+			sort.Strings(want)
+			sort.Strings(got)
+			if len(got) != len(want) {
+				add("hook-not-exactly-once", fmt.Sprintf("%s: hook#%d ran %d times for %d registrations (on %s)", desc, h.id, len(got), len(want), strings.Join(where, ",")), replay)
+			} else if strings.Join(got, ",") != strings.Join(want, ",") {
+				add("hook-error-mismatch", fmt.Sprintf("%s: hook#%d received errors [%s] but the exit errors of its processes (%s) are [%s]", desc, h.id, strings.Join(got, ","), strings.Join(where, ","), strings.Join(want, ",")), replay)
 			}
 		}
-		// reverse order among early hooks whose registration order is known
-		for i, a := range hooks {
-			for _, b := range hooks[i+1:] {
-				if a.p != b.p || !a.early.Load() || !b.early.Load() || a.runs.Load() != 1 || b.runs.Load() != 1 {
+		if sharedSeen {
+			c.Hit("stress-round-with-shared-hook")
+		}
+		// reverse order among early hooks registered on one process only, in a known order
+		for i, a := range hooks[:nHooks] {
+			for _, b := range hooks[i+1 : nHooks] {
+				if len(a.regs) != 1 || len(b.regs) != 1 || len(a.at) != 1 || len(b.at) != 1 {
 					continue
 				}
-				known := (a.owner == b.owner && a.ord < b.ord) || (a.owner == -1 && b.owner != -1)
-				if known && a.at.Load() < b.at.Load() {
-					add("hook-order", fmt.Sprintf("%s: p%d hook #%d registered before #%d also ran before it", desc, a.p, a.id, b.id), desc)
+				ra, rb := a.regs[0], b.regs[0]
+				if ra.p != rb.p || !ra.early || !rb.early {
+					continue
+				}
+				aFirst := (ra.owner == rb.owner && ra.ord < rb.ord) || (ra.owner == -1 && rb.owner != -1)
+				bFirst := (ra.owner == rb.owner && rb.ord < ra.ord) || (rb.owner == -1 && ra.owner != -1)
+				if (aFirst && a.at[0] < b.at[0]) || (bFirst && b.at[0] < a.at[0]) {
+					add("hook-order", fmt.Sprintf("%s: p%d hooks #%d and #%d ran in registration order", desc, ra.p, a.id, b.id), replay)
 				}
 			}
 		}
@@ -1022,7 +1133,8 @@ func Run(c *lib.Ctx) {
 	c.Rule = "correspondence: random forests (≤7 processes) and random schedules (≤4 worker goroutines, ≤90 macro steps) of new/fork/add/exit/join/go/set/get/del, " +
 		"executed step by step on the real process.Process (goroutines parked in harness hooks) and on the Lean small-step model; every line compares hook log entries, " +
 		"operation returns, Join returns, parked position of every worker, Status/Done/Err/Keys of every process (and Value/RemoveValue results). " +
-		"A case is non-trivial when it contains ≥2 of: concurrent Exit on one process, AddExitHook racing with a parked Exit, double Exit, Fork, Join, late AddExitHook, duplicate AddExitHook; distinct by full script. " +
+		"Hooks are ONE ExitFunc object per hook id; in half of the cases the ids are drawn from one pool, so the same object is registered on several processes (a registration is a (process, hook) pair). " +
+		"A case is non-trivial when it contains ≥2 of: concurrent Exit on one process, AddExitHook racing with a parked Exit, double Exit, Fork, Join, late AddExitHook, duplicate AddExitHook, a hook object registered on two processes; distinct by full script. " +
 		"oracle: statement checked on every deterministic case and on free-running rounds (distinct by seed/round)"
 	c.Assumptions = []string{
 		"each mu.Lock…mu.Unlock section of Process is one atomic step (sync.RWMutex is correct); sync.WaitGroup behaves as a counter whose Wait returns iff it is 0",
